@@ -75,6 +75,16 @@ func VerifC14Namespace() {
 	st := w.newState(1)
 	ctx := ctxFor(st)
 	ref := c14Ref{names: map[string]bool{"INBOX": true}, subs: map[string]bool{"INBOX": true}}
+	if vsymParam("holes") == 1 {
+		// an arbitrary subset of a small hierarchy exists already - also inferiors without their parents (a parent
+		// deleted later, or a nested name announced by the connector)
+		for i, nm := range []string{"a", "a/b", "a/b/c", "b"} {
+			if vsymChoice("initial", 2) == 1 {
+				w.db.AddBox(nm, imap.MailboxID("mb-i-"+nm), imap.UID(3+i))
+				ref.names[nm], ref.subs[nm] = true, true
+			}
+		}
+	}
 	// C04: every mailbox object that comes into existence under a name gets a UIDVALIDITY above every value the
 	// name ever had (the generator's own monotonicity is VerifC04Generator's subject: here it counts up from 100)
 	w.user.uidValSeq = 100
@@ -203,30 +213,32 @@ func VerifC14Namespace() {
 // ---- LIST: RFC 3501 wildcard matching over the existing names and the names that exist only as parents ----
 
 // c14Wild: '*' matches any characters, '%' any characters but the delimiter.
-func c14Wild(p, s string) bool {
+func c14Wild(p, s string) bool { return c14WildD(p, s, '/') }
+
+func c14WildD(p, s string, delim byte) bool {
 	if p == "" {
 		return s == ""
 	}
 	switch p[0] {
 	case '*':
 		for i := 0; i <= len(s); i++ {
-			if c14Wild(p[1:], s[i:]) {
+			if c14WildD(p[1:], s[i:], delim) {
 				return true
 			}
 		}
 		return false
 	case '%':
 		for i := 0; i <= len(s); i++ {
-			if i > 0 && s[i-1] == '/' {
+			if i > 0 && s[i-1] == delim {
 				break
 			}
-			if c14Wild(p[1:], s[i:]) {
+			if c14WildD(p[1:], s[i:], delim) {
 				return true
 			}
 		}
 		return false
 	}
-	return s != "" && s[0] == p[0] && c14Wild(p[1:], s[1:])
+	return s != "" && s[0] == p[0] && c14WildD(p[1:], s[1:], delim)
 }
 
 var c14ListPool = []string{"a", "a/b", "a/b/c", "b", "ab/c", "a/b/c/d"}
@@ -353,4 +365,57 @@ func VerifC14Lsub() {
 	}
 	vsymAssert(len(got) == want, "nothing else is returned")
 	vsymCover("lsub-done")
+}
+
+var c14DotPool = []string{"a", "a.b", "a-b", "axb", "a.b.c", "ab"}
+var c14DotPatterns = []string{"a.b", "a.%", "a.*", "%", "*", "a%", "a.b.%", "%.%"}
+
+// VerifC14ListDot: LIST with the hierarchy delimiter "." (a regular-expression metacharacter): the delimiter is a
+// literal in references and patterns and the only thing '%' does not cross.
+func VerifC14ListDot() {
+	w := verifNewWorld(limits.DefaultLimits())
+	w.user.delimiter = "."
+	w.db.AddBox("INBOX", "mb-inbox", 2)
+	exists := map[string]bool{"INBOX": true}
+	for i, nm := range c14DotPool {
+		if vsymChoice("present", 2) == 1 {
+			w.db.AddBox(nm, imap.MailboxID("mb-"+nm), imap.UID(10+i))
+			exists[nm] = true
+		}
+	}
+	ref := []string{"", "a."}[vsymChoice("ref", 2)]
+	pattern := c14DotPatterns[vsymChoice("pattern", len(c14DotPatterns))]
+	st := w.newState(1)
+	st.delimiter = "."
+	var got map[string]Match
+	err := st.List(ctxFor(st), ref, pattern, false, func(m map[string]Match) error { got = m; return nil })
+	vsymAssert(err == nil, "LIST succeeds")
+	if err != nil {
+		return
+	}
+	cand := map[string]bool{}
+	for nm := range exists {
+		cand[nm] = true
+		for i := 0; i < len(nm); i++ {
+			if nm[i] == '.' {
+				cand[nm[:i]] = true
+			}
+		}
+	}
+	want := 0
+	for nm := range cand {
+		m, in := got[nm]
+		if c14WildD(ref+pattern, nm, '.') {
+			want++
+			vsymAssert(in, "a name selected by the pattern is listed (delimiter '.')")
+			if in {
+				vsymAssert(m.Atts.Contains(imap.AttrNoSelect) == !exists[nm], "\\Noselect exactly for names that exist only as parents")
+				vsymAssert(m.Delimiter == ".", "delimiter reported")
+			}
+		} else {
+			vsymAssert(!in, "a name the pattern does not select is not listed (delimiter '.')")
+		}
+	}
+	vsymAssert(len(got) == want, "nothing but existing names and their superiors is listed")
+	vsymCover("list-dot-done")
 }
